@@ -781,7 +781,8 @@ class Inliner(object):
             # own (named booleans read back into the tests they feed)
             key = id(callee.raw)
             if key not in _FOLDED_RAW:
-                _FOLDED_RAW[key] = fold_test_flags(copy.deepcopy(callee.raw))
+                _FOLDED_RAW[key] = fold_test_flags(fold_dict_calls(
+                    copy.deepcopy(callee.raw)))
             raw = _FOLDED_RAW[key]
         self.counter += 1
         tag = '%s__%d' % (callee.name.strip('_'), self.counter)
@@ -1872,6 +1873,30 @@ def fold_lookup_default(fdef):
 _FOLDED_RAW = {}
 
 
+class _DictCalls(ast.NodeTransformer):
+    """dict(a=X, b=Y)  ->  {'a': X, 'b': Y}   (keywords only: no positional
+    argument, no ** expansion)."""
+
+    def visit_Call(self, node):
+        self.generic_visit(node)
+        if isinstance(node.func, ast.Name) and node.func.id == 'dict' and \
+                not node.args and node.keywords and \
+                all(kw.arg is not None for kw in node.keywords):
+            new = ast.Dict(
+                keys=[ast.copy_location(ast.Constant(value=kw.arg), kw.value)
+                      for kw in node.keywords],
+                values=[kw.value for kw in node.keywords])
+            return ast.copy_location(new, node)
+        return node
+
+
+def fold_dict_calls(fdef):
+    if any(isinstance(n, ast.Name) and n.id == 'dict' and
+           isinstance(n.ctx, ast.Store) for n in ast.walk(fdef)):
+        return fdef         # a local called dict: leave alone
+    return ast.fix_missing_locations(_DictCalls().visit(fdef))
+
+
 def fold_test_flags(fdef):
     """x = E ; if <test mentioning x>: ...   ->   if <test with E>: ...
     for a local bound right before the `if` that tests it (a named boolean,
@@ -1970,7 +1995,8 @@ def inline_function(index, func, resolver):
     """Deep copy of func.raw with private helpers inlined; returns
     (new FunctionDef, [inlined callee names])."""
     inl = Inliner(index, resolver)
-    node = sink_result_variable(fold_test_flags(copy.deepcopy(func.raw)))
+    node = sink_result_variable(fold_test_flags(fold_dict_calls(
+        copy.deepcopy(func.raw))))
     inl.fn_stored = (_stored_names(func.raw.body) -
                      _comprehension_vars(func.raw.body)) | set(
                          a.arg for a in func.raw.args.args)
